@@ -182,6 +182,10 @@ impl SimReader {
   pub fn frag_bytes(&self, w: u8, sn: i64, k: u8, pad: usize, f: u32) -> Vec<u8> {
     wire::datafrag_msg(&self.cc(w, sn, k, pad), self.reader_eid, f, self.cfg.frag_size, Some(Self::src_ts(w, sn)))
   }
+  /// a DATA the reader cannot turn into an ordinary sample (see `wire::odd_data_msg`)
+  pub fn odd_bytes(&self, w: u8, sn: i64, variant: u8) -> Vec<u8> {
+    wire::odd_data_msg(wguid(w), sn, self.reader_eid, variant, Some(Self::src_ts(w, sn)))
+  }
   /// one DATAFRAG carrying fragments `first .. first+n`
   pub fn frag_run_bytes(&self, w: u8, sn: i64, k: u8, pad: usize, first: u32, n: u32) -> Vec<u8> {
     wire::datafrag_run_msg(&self.cc(w, sn, k, pad), self.reader_eid, first, n, self.cfg.frag_size, Some(Self::src_ts(w, sn)))
